@@ -1,8 +1,13 @@
 use vstd::prelude::*;
-//@item rodbus/src/decode.rs | DecodeLevel
-//@item rodbus/src/decode.rs | AppDecodeLevel
-//@item rodbus/src/decode.rs | FrameDecodeLevel
-//@item rodbus/src/decode.rs | PhysDecodeLevel
+//@item rodbus/src/decode.rs | DecodeLevel | structeq
+//@item rodbus/src/decode.rs | AppDecodeLevel | enumeq
+//@item rodbus/src/decode.rs | FrameDecodeLevel | enumeq
+//@item rodbus/src/decode.rs | PhysDecodeLevel | enumeq
+impl DecodeLevel {
+// (Self::default() comes from derive(Default), for which Verus has no specification: contract only; both callers are decode-level tests)
+//@fn rodbus/src/decode.rs | DecodeLevel::nothing | tags=C20 | ext_body
+//@|    ensures r.app is Nothing, r.frame is Nothing, r.physical is Nothing,
+}
 impl AppDecodeLevel {
 //@fn rodbus/src/decode.rs | AppDecodeLevel::enabled | tags=C20
 //@fn rodbus/src/decode.rs | AppDecodeLevel::header | tags=C20
